@@ -20,7 +20,9 @@ impl Rng {
     }
 
     pub fn random(&mut self) -> f64 {
-        self.seed = (MULTIPLIER * self.seed + INCREMENT) % MODULUS;
+        // The modulus (2^33) divides 2^64, so wrapping arithmetic yields the same
+        // residue without overflowing for seeds that don't fit in 33 bits.
+        self.seed = MULTIPLIER.wrapping_mul(self.seed).wrapping_add(INCREMENT) % MODULUS;
         self.latest_random()
     }
 
